@@ -695,6 +695,23 @@ def run_machine(chk, tag, docs, cfgs_all, cfgsel, exprs, timeout=3000):
     return r
 
 
+def run_tlaps(chk, module, timeout=900):
+    """discharge the proof obligations of spec/<module>.tla with TLAPS; returns their number"""
+    pd = sub("tlaps-" + module)
+    shutil.copy(os.path.join(SPEC, module + ".tla"), pd)
+    try:
+        tp = subprocess.run(["tlapm", "--cleanfp", "--threads", "8", module + ".tla"], cwd=pd, capture_output=True, text=True, timeout=timeout)
+    except (FileNotFoundError, subprocess.TimeoutExpired) as e:
+        raise Infra("tlapm on %s: %s" % (module, e))
+    out = tp.stdout + tp.stderr
+    m = re.search(r"All (\d+) obligations? proved", out)
+    if not m:
+        raise Infra("TLAPS did not prove %s.tla:\n%s" % (module, out[-1500:]))
+    log("TLAPS: all %s obligations of %s.tla proved" % (m.group(1), module))
+    chk.notes["tlaps_%s_obligations_proved" % module] = int(m.group(1))
+    return int(m.group(1))
+
+
 # ---------------------------------------------------------------------------------------
 # verdicts and evidence
 
